@@ -41,7 +41,8 @@ CONSTANTS
 \*               after "tsusp" the script continues when the branch is resubmitted.  Retrying steps: "sfail" (START, function
 \*               raises, RETRY recorded, the branch parks on the retry timer), "sretry" (the attempt found READY after the
 \*               resubmission: no START, function, SUCCEED), "sfinal" (START, function raises, FAIL recorded); "sretryfail" /
-\*               "sretryfinal": a READY attempt whose function raises again (RETRY and park / FAIL)
+\*               "sretryfinal": a READY attempt whose function raises again (RETRY and park / FAIL); "rok" / "rfail": the whole script
+\*               of a branch whose context is already SUCCEEDED / FAILED when the invocation begins (replayed, nothing sent)
 \*   maxc : max_concurrency (0 = None); mins : min_successful (0 = None); tolc : tolerated_failure_count (99 = None);
 \*   tolp : tolerated_failure_percentage (999 = None); tfail : BOOLEAN, the timer thread's refresh checkpoint may fail; lag : BOOLEAN, the backend fires timers late (BodyRepark)
 \*   pre  : sequence of the branches whose context already exists when the call starts (a re-invocation: the branch is re-entered without a
@@ -327,6 +328,9 @@ BodyOther(i) ==
             BSet(i, reg, "fn", bpos[i], fout[i], "run", active,
                  IF parentSent THEN late \cup {<<i, IF FixStepGuard THEN "fn-race" ELSE "fn">>} ELSE late, known)
        [] sub[i] = "ctxWait" -> End(i, Atom(i), late, known)                  \* the context's completion checkpoint returned
+       \* a later invocation in which the branch's context is already terminal in the history: the child handler returns the
+       \* recorded result / raises the recorded error at once, the body is not run and nothing is sent ("rok" / "rfail")
+       [] sub[i] = "atom" /\ Atom(i) \in {"rok", "rfail"} -> End(i, IF Atom(i) = "rok" THEN "ok" ELSE "fail", late, known)
        \* a wait / callback: its START is checkpointed first (wstart), then the branch parks
        [] sub[i] = "atom" /\ Atom(i) \in {"susp", "tsusp"} -> BSet(i, reg, "wstart", bpos[i], fout[i], "run", active, late, known)
        [] sub[i] = "park" \/ (sub[i] = "atom" /\ Atom(i) = "bte") ->
